@@ -564,7 +564,7 @@ class operators:
     R = virtual_operator(_operators.R, ["rT", "rL"], ["r0"], _diff + _std)
     T = virtual_operator(_operators.T, ["alpha", "phi"], [], _diff + _std)
     Phi = virtual_operator(_operators.Phi, ["phi"], [], _diff + _std)
-    S = virtual_operator(_operators.S, ["k"], [], _std)
+    S = virtual_operator(_operators.S, ["k"], [], _std + ["nmax", "kgrid", "prune"])
     D = virtual_operator(_operators.D, ["tau", "D", "k"], [], _std)
     X = virtual_operator(_operators.X, ["tau", "khi"], ["T1", "T2", "g"], _std)
 
